@@ -149,6 +149,9 @@ def _frame(kind):
         return pd.DataFrame({"x": [1, 2, 3, 4, 5]}).iloc[[1, 3, 4]]
     if kind == 3:
         return pd.DataFrame({"k": ["a", "b"], "v": [1.5, 2.5]}).set_index("k")
+    if kind == 4:
+        # column and index names as they come out of spreadsheets: spaces, brackets, separators, '='
+        return pd.DataFrame({"unit price": [1.5, 2.5], "qty (pcs)": [3, 4], "a;b": ["x", "y"], "k=v": [True, False], "row id": ["r1", "r2"], "tab\tname": [0, 1], "{n}": [7, 8]}).set_index("row id")
     return pd.DataFrame({"x": []})
 
 
@@ -180,6 +183,8 @@ def result_value(tag):
         return _frame(2)
     if tag == "frame_named_index":
         return _frame(3)
+    if tag == "frame_odd_names":
+        return _frame(4)
     if tag == "str_big":
         return "é" * (1 << 19)
     if tag == "bytes_big":
@@ -192,7 +197,8 @@ def values_equal(a, b):
         import pandas as pd
 
         if isinstance(a, pd.DataFrame) or isinstance(b, pd.DataFrame):
-            return isinstance(a, pd.DataFrame) and isinstance(b, pd.DataFrame) and a.equals(b)
+            return (isinstance(a, pd.DataFrame) and isinstance(b, pd.DataFrame) and a.equals(b) and [str(c) for c in a.columns] == [str(c) for c in b.columns]
+                    and list(a.index.names) == list(b.index.names) and [str(t) for t in a.dtypes] == [str(t) for t in b.dtypes])
     except ImportError:
         pass
     if type(a) is not type(b):
